@@ -47,7 +47,9 @@ func hC08Seg() {
 			chunk = verifChoose("chunk", 3) + 1
 			bufSize = []int{1, 2, 3, 5}[verifChoose("bufsize", 4)]
 			eofWithData = verifChoose("eofWithData", 2) == 1
-			emptyReadAt = []int{0, 1, 2, 4, 7}[verifChoose("emptyReadAt", 5)] // 0 = never
+			if !eofWithData && bufSize == 5 { // (crossed with the chunk sizes only: a full cross product with the handler's read sizes does not finish)
+				emptyReadAt = []int{0, 1, 2, 4, 7}[verifChoose("emptyReadAt", 5)] // 0 = never
+			}
 		} else {
 			mode = verifChoose("writeMode", 5)
 			if mode == wmSplit {
